@@ -105,7 +105,10 @@ def run(M, rec, tier, seed, k, n):
                 twins.append(nxt)
             for st in ("SX", "MX"):
                 try:
-                    case = CC.CompileCase(M, rng, desc, pars, st, keys, opts, own_symbols=(rng.random() < 0.6))
+                    case = CC.CompileCase(M, rng, desc, pars, st, keys, opts, own_symbols=(rng.random() < 0.6),
+                                          fixed_from=points[0], fixed_prob=0.35)
+                    if case.fixed:
+                        rec.count("cases_with_variables_supplied_as_numbers")
                 except Exception as e:
                     rec.count("symbolic_step_failed")
                     rec.seen("symbolic_step_failed", repr(e)[:120])
@@ -122,8 +125,8 @@ def run(M, rec, tier, seed, k, n):
                         continue
                     rec.seen("configs", (st, compact, more_out, bool(keys), bool(opts)))
                     for vals, twin in zip(points, twins):
-                        if twin is None:
-                            continue
+                        if twin is None or (case.fixed and vals is not points[0]):
+                            continue  # the numbers baked into the function are those of the first point
                         try:
                             xn, q, qo = case.call(F, vals, compact, more_out)
                         except Exception as e:
